@@ -13,12 +13,12 @@ import (
 	"github.com/cosmos/cosmos-sdk/client"
 	"github.com/ethereum/go-ethereum/common"
 	ethtypes "github.com/ethereum/go-ethereum/core/types"
-	ethfilters "github.com/ethereum/go-ethereum/eth/filters"
 	"github.com/ethereum/go-ethereum/rpc"
 
 	"github.com/EscanBE/evermint/v12/rpc/namespaces/ethereum/eth/filters"
 	evertypes "github.com/EscanBE/evermint/v12/rpc/types"
 
+	"verif/harness/sched/logalpha"
 	"verif/harness/vrt"
 	vws "verif/harness/vrt/vws"
 )
@@ -64,7 +64,7 @@ func isErrID(id rpc.ID) bool { return len(id) > 5 && string(id[:5]) == "error" }
 // eth_newPendingTransactionFilter, eth_getFilterChanges, eth_uninstallFilter and the 5-minute timeout loop).
 func APIScenarios() []Scenario {
 	const tenMin = int64(11 * time.Minute)
-	return []Scenario{
+	return append([]Scenario{
 		{Name: "S7-block-filter-poll-uninstall", Desc: "eth_newBlockFilter, eth_getFilterChanges, eth_uninstallFilter by one client || deliverer pushing 2 new-header events || timeout loop (virtual clock up to 11 min)", MaxTime: tenMin,
 			Body: func() {
 				api, ws := buildAPI()
@@ -118,7 +118,8 @@ func APIScenarios() []Scenario {
 			Body: func() {
 				api, ws := buildAPI()
 				vrt.GoDriver("clientA", func() {
-					id, err := api.NewFilter(ethfilters.FilterCriteria{})
+					// criteria with a wildcard before a constrained position; the delivered receipt carries logs of 0..4 topics
+					id, err := api.NewFilter(logalpha.PatternCriteria("*1", false))
 					if err != nil {
 						vrt.Note("A:new-filter-error")
 						return
@@ -134,9 +135,67 @@ func APIScenarios() []Scenario {
 					vrt.Note("B:uninstalled=%v", api.UninstallFilter(id))
 				})
 				vrt.GoDriver("deliver", func() {
-					vrt.Send("deliver", ws.ResponsesCh, eventJSON(QLogs))
+					vrt.Send("deliver", ws.ResponsesCh, logEvent())
 					vrt.Send("deliver", ws.ResponsesCh, headerEventJSON())
 				})
 			}},
+	}, criteriaScenarios()...)
+}
+
+// criteriaScenarios: one closed system per criteria of the scheduler alphabet (SchedCriteriaPatterns): a client installs a log filter
+// with that criteria through the real eth_newFilter (whose goroutine runs FilterLogs on every delivered receipt and has no recover),
+// the chain delivers one Ethereum tx whose receipt carries logs of every shape (AllShapeLogs), the client polls and uninstalls.
+// The virtual clock orders the default schedule (install at 0 s, delivery at 1 s, poll at 2 s) so that the default schedule already
+// takes the receipt through the filter goroutine; deviations move the delivery before / into the installation and the poll.
+// MaxTime (one virtual minute) is far above every deadline that can arise (delivery <= 1 s after start, the 1 s lag timer of
+// consumeEvents, the client's 2 s from whenever its installation completes) — a tighter bound would leave a delayed client asleep
+// forever and be reported as a deadlock of the driver — and below the 5 minute filter timeout, which S9 covers.
+var cachedAllShapes *rpctypes.RPCResponse // built once per process (the bytes are never modified)
+
+func allShapesEvent() rpctypes.RPCResponse {
+	if cachedAllShapes == nil {
+		r := logalpha.TxEventResponse(QLogs, 5, logalpha.AllShapeLogs())
+		cachedAllShapes = &r
 	}
+	return *cachedAllShapes
+}
+
+func criteriaScenarios() []Scenario {
+	var out []Scenario
+	patterns, withAddr := logalpha.SchedCriteriaPatterns()
+	for k := range patterns {
+		crit := logalpha.PatternCriteria(patterns[k], withAddr[k])
+		out = append(out, Scenario{Name: logalpha.CriteriaScenarioName(k) + "log-filter-criteria", MaxTime: int64(time.Minute),
+			Desc: "eth_newFilter with criteria {" + logalpha.CritString(crit) + "}, eth_getFilterChanges after 2 virtual seconds, eth_uninstallFilter || deliverer pushing after 1 virtual second one Ethereum tx event whose receipt has 62 logs of every shape (0..4 topics, matching / foreign value per position, two contracts)",
+			Body: func() {
+				api, ws := buildAPI()
+				vrt.GoDriver("client", func() {
+					id, err := api.NewFilter(crit)
+					if err != nil {
+						vrt.Note("client:new-filter-error")
+						return
+					}
+					vrt.Sleep(2 * time.Second)
+					res, err := api.GetFilterChanges(id)
+					if err != nil {
+						vrt.Note("client:changes-error")
+					} else {
+						logs := res.([]*ethtypes.Log)
+						vrt.Note("client:changes=%d", len(logs))
+						if len(logs) > 0 {
+							vrt.Note("client:matched")
+							if !logalpha.SameLogList(logs, logalpha.RefFilter(crit, logalpha.AllShapeLogs())) {
+								vrt.Note("client:filter-semantics-differ-from-reference") // information (outcome class), not a failure
+							}
+						}
+					}
+					vrt.Note("client:uninstalled=%v", api.UninstallFilter(id))
+				})
+				vrt.GoDriver("deliver", func() {
+					vrt.Sleep(time.Second)
+					vrt.Send("deliver", ws.ResponsesCh, allShapesEvent())
+				})
+			}})
+	}
+	return out
 }
